@@ -275,17 +275,11 @@ def check_rollback_index(ck, P, rid):
     else:
         r = rules_cmp.recognise_top(tops[0], P)
         if isinstance(r, dict) and r["a"] == sname:
-            # and the scan continues while the comparator is true
-            lp = tops[0]
-            while lp is not None and lp.k not in ("DoStmt", "WhileStmt", "ForStmt"):
-                lp = lp.parent
-            neg = False
-            x = tops[0].parent
-            while x is not None and x is not lp:
-                if x.k == "UnaryOperator" and x.op == "!":
-                    neg = not neg
-                x = x.parent
-            if lp is not None and not neg:
+            # and the scan continues while the comparator is true: where control goes when the comparator as a whole is true / false
+            verdict = _comparator_exits(ms, tops[0])
+            if verdict is None:
+                ck.inconclusive(rid, inst, tops[0].where, "where the scan goes after the comparator could not be determined", cfg)
+            elif verdict:
                 ck.holds(rid, inst, tops[0].where, "scan continues while msg_is_before(%s, entry): stops at the newest entry not after the straggler" % sname, cfg)
             else:
                 ck.violated(rid, inst, tops[0].where, "the scan does not continue over the entries the straggler precedes", cfg)
@@ -307,6 +301,88 @@ def check_rollback_index(ck, P, rid):
                 ck.holds(rid, "straggler-test@process_msg", t.where, "straggler iff msg_is_before(%s, newest history entry)" % r["a"], cfg)
         if not ok:
             ck.violated(rid, "straggler-test@process_msg", hs[0].where, "the straggler test is not 'extracted message is before the newest history entry' under the canonical order", cfg)
+
+
+def _comparator_exits(f, top):
+    """True when, in the flow graph, a TRUE comparator leads to the next history load (or to the function's early exit) before any
+    later return, and a FALSE comparator can reach a return without another load; False when the roles are reversed or a true
+    comparator can leave the scan; None when undetermined."""
+    g = f.cfg
+    # the outermost logical expression the comparator is an operand of
+    outer = top
+    while outer.parent is not None and (outer.parent.k in ("ParenExpr", "ImplicitCastExpr", "CStyleCastExpr") or
+                                        (outer.parent.k == "UnaryOperator" and outer.parent.op == "!") or
+                                        (outer.parent.k == "BinaryOperator" and outer.parent.op in ("&&", "||")) or
+                                        (outer.parent.k == "CallExpr" and outer.parent.callee == "__builtin_expect")):
+        outer = outer.parent
+    inside = {x.id for x in outer.walk()}
+
+    def related(B):
+        if B.cond is None or len(B.raw_succs) != 2 or B.termk == "SwitchStmt":
+            return False
+        core = X.strip_bool(B.cond)[0]
+        return core is not None and (core.id in inside or any(x.id == top.id for x in B.cond.walk()))
+    rblocks = [b_ for b_, B in g.blocks.items() if related(B)]
+    if not rblocks:
+        return None
+    succ_of = set()
+    for b_ in rblocks:
+        succ_of.update(s_ for s_ in g.blocks[b_].succs if s_ is not None)
+    firsts = [b_ for b_ in rblocks if b_ not in succ_of]
+    if len(firsts) != 1:
+        # the first operand's block may be entered from a block of the chain through a loop: take the one that dominates the others
+        firsts = [b_ for b_ in rblocks if all(g.dominates_block(b_, o) for o in rblocks)] if hasattr(g, "dominates_block") else firsts[:1]
+        if not firsts:
+            return None
+    exits = {True: set(), False: set()}
+    seen = set()
+    work = [(firsts[0], ())]
+    while work:
+        b_, facts = work.pop()
+        if (b_, facts) in seen or len(seen) > 4000:
+            continue
+        seen.add((b_, facts))
+        B = g.blocks[b_]
+        fd = dict(facts)
+        if not related(B):
+            v = eval3(top, fd)
+            if v is not None:
+                exits[v].add(b_)
+                continue
+            if B.cond is not None and len(B.raw_succs) == 2:
+                # left the expression without the comparator having a value: it was short-circuited on this path
+                continue
+            for s_ in B.succs:
+                if s_ is not None and not B.abort:
+                    work.append((s_, facts))
+            continue
+        core, neg = X.strip_bool(B.cond)
+        known = eval3(B.cond, fd)
+        for i, s_ in enumerate(B.succs[:2]):
+            if s_ is None or (known is not None and known != (i == 0)):
+                continue
+            f2 = dict(fd)
+            f2[core.id] = (i == 0) ^ neg
+            for c0, t0 in implied_atoms(B.cond, i == 0, fd):
+                f2[c0.id] = t0
+            work.append((s_, tuple(sorted(f2.items()))))
+    if not exits[True] or not exits[False]:
+        return None
+    loads = {n.id for n in f.walk() if (n.k == "BinaryOperator" and n.op == "=" or n.k == "VarDecl") and any(
+        x.k == "ArraySubscriptExpr" and "p_msgs" in X.show(x.children[0]) for x in n.walk())}
+    rets = {n.id for n in f.walk() if n.k == "ReturnStmt"}
+    early = {n.id for n in f.walk() if n.k == "ReturnStmt" and n.children and X.const_int(n.children[0]) == 0}
+    late = rets - early
+    if not loads or not late:
+        return None
+
+    def reaches_return_without_load(b):
+        return g.escapes((b, -1), loads, goal=None, goal_ids=late) is not None
+    t_leaves = any(reaches_return_without_load(b) for b in exits[True])
+    f_leaves = all(reaches_return_without_load(b) for b in exits[False])
+    if not t_leaves and f_leaves:
+        return True
+    return False
 
 
 # --------------------------------------------------------------------------------------------------------------
